@@ -8,7 +8,7 @@ MANIFEST_ENTRY = dict(
     technique="TLC model checking of spec/MCWallet.tla + TLC-generated behaviours replayed on the real code + TLC trace validation (spec/TraceWallet.tla)",
     note=WALLET_NOTE)
 
-PARAMS = dict(quick_cfgs=['MC_C15_quick.cfg'], thorough_cfgs=['MC_C15.cfg', 'MC_C03_acct.cfg'], quick_n=60, thorough_n=500,
+PARAMS = dict(quick_cfgs=['MC_C15_quick.cfg'], thorough_cfgs=['MC_C15.cfg', 'MC_C03_acct.cfg'], quick_n=60, thorough_n=500, focus=['set_active', 'create_account', '>'],
               crash_cases_quick=10, crash_cases_thorough=80, crash_ops=['receive', 'lock', 'finalize', 'process_invoice', 'init_send'],
               setup=STD_SETUP, assumptions=WALLET_ASSUME, extra_behaviours=[
     # directed: a restore from seed when the last output in chain order is NOT the one with the
